@@ -356,3 +356,57 @@ Proof.
   destruct (Z.ltb_spec MAX_NAME (Z.of_nat (length nm))); [lia|]. cbn [snd].
   eexists. split; [apply insert_sorted_in; left; reflexivity|]. split; reflexivity.
 Qed.
+
+(* ------------------------------------------------------------------ section_by_name: sound and complete for every lookup *)
+Lemma by_name_from_spec h key : forall fuel id0,
+  (forall k, id0 <= k < id0 + Z.of_nat fuel -> In k (map sid h)) ->
+  match by_name_from h key id0 fuel with
+  | Some j => id0 <= j < id0 + Z.of_nat fuel /\
+              exists sj, by_id h j = Some sj /\ name_matches sj key = true /\
+                         forall k sk, id0 <= k < j -> by_id h k = Some sk -> name_matches sk key = false
+  | None => forall k sk, id0 <= k < id0 + Z.of_nat fuel -> by_id h k = Some sk -> name_matches sk key = false
+  end.
+Proof.
+  induction fuel as [|f IH]; intros id0 Hall; cbn [by_name_from]; [intros; lia|].
+  destruct (by_id_some h id0 (Hall id0 ltac:(lia))) as [s0 [E0 _]]. rewrite E0.
+  destruct (name_matches s0 key) eqn:M0.
+  - split; [lia|]. exists s0. split; [assumption|]. split; [assumption|]. intros; lia.
+  - specialize (IH (id0 + 1) ltac:(intros k Hk; apply Hall; lia)).
+    destruct (by_name_from h key (id0 + 1) f) as [j|].
+    + destruct IH as [Hj [sj [Bj [Mj Hf]]]]. split; [lia|]. exists sj. split; [assumption|]. split; [assumption|].
+      intros k sk Hk Bk. destruct (Z.eq_dec k id0) as [->|Hn]; [congruence|]. apply (Hf k sk); [lia|assumption].
+    + intros k sk Hk Bk. destruct (Z.eq_dec k id0) as [->|Hn]; [congruence|]. apply (IH k sk); [lia|assumption].
+Qed.
+
+Lemma by_id_unique_t h s : NoDup (map sid h) -> In s h -> by_id h (sid s) = Some s.
+Proof.
+  induction h as [|a t IH]; intros Hn Hin; [contradiction|]. cbn [map] in Hn. inversion Hn as [|? ? Hnot Hn']; subst.
+  cbn [by_id]. destruct Hin as [->|Hin]; [rewrite Z.eqb_refl; reflexivity|].
+  destruct (Z.eqb_spec (sid a) (sid s)) as [E|N]; [|apply IH; assumption].
+  exfalso. apply Hnot. rewrite E. apply in_map. assumption.
+Qed.
+
+(* for every holder the API can produce and every key: the answer is the FIRST section (lowest id) whose name matches, and
+   "not found" means that no section matches (or the key is longer than any name can be) *)
+Theorem section_by_name_complete h key : reachable h ->
+  match section_by_name h key with
+  | Some j => Z.of_nat (length key) <= MAX_NAME /\
+              exists sj, In sj h /\ sid sj = j /\ name_matches sj key = true /\
+                         forall s, In s h -> sid s < j -> name_matches s key = false
+  | None => MAX_NAME < Z.of_nat (length key) \/ forall s, In s h -> name_matches s key = false
+  end.
+Proof.
+  intros R. destruct (reachable_inv h R) as [_ [Hi _]]. destruct (reachable_ids_unique h R) as [Hnd Hpos].
+  assert (Hrange : forall x, In x h -> 0 <= sid x < Z.of_nat (length h)).
+  { intros x Hx. assert (In (sid x) (ids_upto (length h))) by (eapply Permutation_in; [exact Hi|apply in_map; assumption]).
+    apply in_ids_upto in H. assumption. }
+  unfold section_by_name. destruct (Z.ltb_spec MAX_NAME (Z.of_nat (length key))) as [Hlong|Hok]; [left; assumption|].
+  pose proof (by_name_from_spec h key (length h) 0) as Hs.
+  assert (Hall : forall k, 0 <= k < 0 + Z.of_nat (length h) -> In k (map sid h)).
+  { intros k Hk. eapply Permutation_in; [apply Permutation_sym; exact Hi|]. apply in_ids_upto. lia. }
+  specialize (Hs Hall). destruct (by_name_from h key 0 (length h)) as [j|].
+  - destruct Hs as [Hj [sj [Bj [Mj Hf]]]]. split; [assumption|]. destruct (by_id_in h j sj Bj) as [Es Hin].
+    exists sj. split; [assumption|]. split; [assumption|]. split; [assumption|].
+    intros s Hs0 Hlt. destruct (Hrange s Hs0). apply (Hf (sid s) s); [lia|]. apply by_id_unique_t; assumption.
+  - right. intros s Hs0. destruct (Hrange s Hs0). apply (Hs (sid s) s); [lia|]. apply by_id_unique_t; assumption.
+Qed.
